@@ -154,6 +154,25 @@ class PathExec(object):
     return tuple(self._norm(x) if isinstance(x, tuple) else x for x in t)
 
   def test_term(self, test, env):
+    t, flip, _a = self._test_term(test, env)
+    return ('neg', t) if flip else t
+
+  def _test_term(self, test, env):
+    """(term, flip, inner test ast): `(<test>) == True`, `is False`, `not <test>` are the inner test with the polarity
+    kept / flipped"""
+    if isinstance(test, ast.Compare) and len(test.ops) == 1 and isinstance(test.ops[0], (ast.Eq, ast.NotEq, ast.Is, ast.IsNot)):
+      for a, b in ((test.left, test.comparators[0]), (test.comparators[0], test.left)):
+        bt = self.ev(b, env)
+        if isinstance(bt, tuple) and bt[0] == 'const' and isinstance(bt[1], bool) and isinstance(a, (ast.Compare, ast.Call, ast.BoolOp, ast.UnaryOp)):
+          inner, f0, ia = self._test_term(a, env)
+          same = isinstance(test.ops[0], (ast.Eq, ast.Is)) == bt[1]
+          return inner, f0 != (not same), ia
+    if isinstance(test, ast.UnaryOp) and isinstance(test.op, ast.Not):
+      inner, f0, ia = self._test_term(test.operand, env)
+      return inner, not f0, ia
+    return self._test_term0(test, env), False, test
+
+  def _test_term0(self, test, env):
     if isinstance(test, ast.Compare) and len(test.ops) == 1:
       op = type(test.ops[0]).__name__
       l, r = self.ev(test.left, env), self.ev(test.comparators[0], env)
@@ -208,14 +227,15 @@ class PathExec(object):
           continue
         c = conds
         if isinstance(lab, tuple) and lab[0] in ('T', 'F') and node.kind == 'test':
-          tt = self.test_term(lab[1], env)
+          tt, flip, inner_ast = self._test_term(lab[1], env)
+          pol_ = lab[0] if not flip else ('F' if lab[0] == 'T' else 'T')
           known = static_truth(tt, facts_after)
-          if known is not None and known != (lab[0] == 'T'):
+          if known is not None and known != (pol_ == 'T'):
             continue            # the outcome of this test is fixed by the constants on the path
           prev = [pol for pol, t0, a0, n0 in conds if t0 == tt]
-          if prev and prev[-1] != lab[0] and pure(tt):
+          if prev and prev[-1] != pol_ and pure(tt):
             continue            # the same pure test was decided the other way earlier on this path
-          c = conds + ((lab[0], tt, lab[1], node),)
+          c = conds + ((pol_, tt, inner_ast, node),)
         elif isinstance(lab, tuple) and lab[0] in ('T', 'F') and node.kind == 'loop':
           c = conds + ((lab[0], ('loop', unparse(lab[1])), lab[1], node),)
         stack.append((m, dict(env_after), c, trail + (node,), visits, facts_after))
